@@ -6,7 +6,7 @@ import random
 from .. import gen_sched, sched, sched_comb, sched_prog as sp
 
 PROP = "C08"
-THEOREMS = ["C08_gather", "C08_gather_once", "C08_chain", "C08_chain_done", "C08_chain_plain", "C08_unwrap",
+THEOREMS = ["C08_gather", "C08_gather_mixed", "C08_unwrap_mixed", "C08_gather_once", "C08_chain", "C08_chain_done", "C08_chain_plain", "C08_unwrap",
             "C08_confluence", "C08_termination", "C08_unexpected", "C08_blocking_configs",
             "C08_blocking_configs_fail"]
 AXIOMS_OK = []
@@ -25,11 +25,13 @@ LEVEL_NOTE = ("Theorems are about two Gallina models: Exec/RuntimeFutures.v (cal
 RULE = ("behaviour-tree programs with 1-6 deferred resolver calls (modes S/P/C, nested deferred values, objects, "
         "lists, non-null, ResolverError / RuntimeError at any field) x 5 configurations (BlockingExecutor; Executor on BlockingRuntime, AsyncIORuntime without and with thread offload, ThreadPoolRuntime); asyncio and thread pool "
         "under every admissible completion order (depth-first replay, exhaustive up to the tier's bound, sampled "
+        "beyond); thread pool also with every subset of the submitted calls completing before submit returns "
+        "(small operations, failures at every position, exhaustive; "
         "beyond); non-trivial = a deferred configuration with at least two completion orders or a failure; "
         "distinct = distinct (program, configuration)")
 
 CFG = {"bexec": "CBlockingExec", "brt": "CBlockingRt", "aio": "CAsyncio", "aiot": "CAsyncio", "pool": "CPool",
-       "threads": "CThreads"}
+       "poole": "CPool", "threads": "CThreads"}
 
 
 def F(k, m, b, nn=False, lv=0, **kw):
@@ -109,7 +111,7 @@ def _cases_for(prog, limit, samples, seed, configs=("bexec", "brt", "aio", "aiot
     out = []
     for c in configs:
         case = {"prog": prog, "config": c, "limit": limit, "samples": samples, "seed": seed}
-        if c in ("aio", "aiot", "pool"):
+        if c in ("aio", "aiot", "pool", "poole"):
             n = len(_explore(case)["runs"])
             chunks = max(1, -(-n // CHUNK))
             for k in range(chunks):
@@ -123,6 +125,34 @@ def corpus():
     out = []
     for i, p in enumerate(_corpus_programs()):
         out.extend(_cases_for(p, 720, 20, i))
+    return out
+
+
+def eager_programs(quick, op="query"):
+    """small operations for the eager dimension (config poole: every subset of the submitted
+    calls completes before submit returns x every completion order of the others): fixed
+    shapes with int / ResolverError / RuntimeError at every deferred position"""
+    import itertools
+    leafs = [["int", 5], ["err"], ["exn", 3]]
+
+    def leaf(k, b, m="C", lv=0):
+        f = F(k, m, list(b), lv=lv)
+        if b[0] != "int":
+            f["sh"] = "i"
+        return f
+
+    out = []
+    for a, b in itertools.product(leafs, repeat=2):
+        out.append({"op": op, "fields": [leaf(0, a), leaf(1, b)]})                         # two siblings
+        out.append({"op": op, "fields": [F(0, "C", ["obj", [leaf(1, a), leaf(2, b, "P")]])]})  # nested selection
+        out.append({"op": op, "fields": [leaf(0, a, lv=1), leaf(1, b)]})                   # nested future
+        out.append({"op": op, "fields": [F(0, "S", ["list", False, "obj",
+                                                     [["obj", [leaf(1, a)]], ["obj", [leaf(1, b)]]]])]})
+    for a, b, c in itertools.product(leafs, repeat=3):
+        if quick and [a[0], b[0], c[0]].count("int") == 0:
+            continue
+        out.append({"op": op, "fields": [leaf(0, a), leaf(1, b), F(2, "S", ["int", 1]), leaf(3, c)]})
+        out.append({"op": op, "fields": [leaf(0, a), F(1, "C", ["obj", [leaf(2, b), leaf(3, c)]], nn=True)]})
     return out
 
 
@@ -147,10 +177,17 @@ def generate(rng, tier):
         plan += [dict(n=260, min_tasks=2, max_tasks=5, p_exn=0.0), dict(n=150, min_tasks=2, max_tasks=5, p_exn=0.12),
                  dict(n=120, min_tasks=4, max_tasks=6, p_exn=0.05), dict(n=30, min_tasks=6, max_tasks=7, p_exn=0.03),
                  dict(n=20, min_tasks=1, max_tasks=1, p_exn=0.1)]
+    for p in eager_programs(quick):
+        cases.extend(_cases_for(p, limit, samples, rng.randrange(1 << 30), configs=("poole",)))
+    for _ in range(12 if quick else 150):
+        p = gen_sched.gen_program(rng, rng.choice(["query", "query", "mutation"]), 1, 3 if quick else 4,
+                                  p_exn=0.2, p_err=0.2)
+        cases.extend(_cases_for(p, limit, samples, rng.randrange(1 << 30), configs=("poole",)))
     for spec in plan:
         for _ in range(spec["n"]):
             op = "mutation" if rng.random() < 0.25 else "query"
             p = gen_sched.gen_program(rng, op, spec["min_tasks"], spec["max_tasks"], p_exn=spec["p_exn"])
+            p["layout"] = rng.choice(["distinct", "distinct", "shared", "mutnested"])
             cases.extend(_cases_for(p, limit, samples, rng.randrange(1 << 30)))
             if not quick and rng.random() < 0.5:
                 cases.append({"prog": p, "config": "threads", "limit": 0, "samples": 25, "seed": rng.randrange(1 << 30)})
@@ -176,7 +213,7 @@ def to_coq(case, obs):
     if "comb" in case:
         return sched_comb.c_case(case["comb"], obs)
     cfg = case["config"]
-    acfg = "pool" if cfg == "threads" else cfg
+    acfg = "pool" if cfg in ("threads", "poole") else cfg
     return "(CaseProg %s %s [%s])" % (CFG[cfg], sp.c_prog(case["prog"], acfg),
                                ";\n ".join(sp.c_obs(o) for o in obs["runs"]))
 
@@ -190,7 +227,7 @@ def show_expr(case, obs):
 def nontrivial(case, obs):
     if "comb" in case:
         return len(case["comb"]["sigma"]) >= 2
-    return case["config"] in ("aio", "aiot", "pool", "threads") and (
+    return case["config"] in ("aio", "aiot", "pool", "poole", "threads") and (
         len(obs["runs"]) > 1 or any("fail" in r for r in obs["runs"]))
 
 
@@ -245,7 +282,7 @@ def shrink(case, is_bad):
     while changed:
         changed = False
         for p in gen_sched.sub_programs(cur["prog"]):
-            if gen_sched.n_tasks(p, "pool") < 1 and cur["config"] in ("aio", "aiot", "pool", "threads"):
+            if gen_sched.n_tasks(p, "pool") < 1 and cur["config"] in ("aio", "aiot", "pool", "poole", "threads"):
                 continue
             cand = dict(cur, prog=p)
             cand.pop("chunk", None)
@@ -269,7 +306,7 @@ def _extra_evidence(cases, obss):
     fails = errs = 0
     for c, o in zip(cases, obss):
         per_cfg[c["config"]] = per_cfg.get(c["config"], 0) + 1
-        if c["config"] in ("aio", "aiot", "pool"):
+        if c["config"] in ("aio", "aiot", "pool", "poole"):
             if c.get("chunk", [0])[0] != 0:
                 continue
             orders += o.get("orders_total", len(o["runs"]))
@@ -278,7 +315,7 @@ def _extra_evidence(cases, obss):
             tasks[n] = tasks.get(n, 0) + 1
         fails += 1 if any("fail" in r for r in o["runs"]) else 0
         errs += 1 if any(r.get("errors") for r in o["runs"]) else 0
-    sched_cases = sum(1 for c in cases if c["config"] in ("aio", "aiot", "pool") and c.get("chunk", [0])[0] == 0)
+    sched_cases = sum(1 for c in cases if c["config"] in ("aio", "aiot", "pool", "poole") and c.get("chunk", [0])[0] == 0)
     return {"exhaustive": bool(sched_cases) and exhaustive == sched_cases,
             "distribution": {
                 "cases_per_configuration": per_cfg,
